@@ -32,6 +32,20 @@ def _impl_case(case):
         if len(d) and (sum(hash(str(v)) for v in d.values()) + len(t)) % 5 == 0 and (t != 'sysex' or len(d['data']) < 300):
             _used_elsewhere(mido, t, d)
         m = mido.Message(t, time=time, **d)
+        if len(d) and sum(hash(str(v)) for v in d.values()) % 3 == 0:
+            # assignments the message refuses (ill-typed or out-of-range values) leave it as it was: what is encoded below is
+            # the message that was constructed
+            for name in d:
+                for badv in (100.0, None, 'x', 1000, -1, [1, 2.0] if name == 'data' else (1,)):
+                    try:
+                        setattr(m, name, badv)
+                        setattr(m, name, d[name])      # accepted after all (e.g. pitch=1000): put the value back
+                    except (ValueError, TypeError):
+                        pass
+            try:
+                m.time = 'soon'
+            except (ValueError, TypeError):
+                pass
         bs = m.bytes()
         enc_line = '%s|%d|%s|1' % (' '.join(str(int(b)) for b in bs), len(m), m.hex())
         m2 = mido.Message.from_bytes(bs, time=time)
